@@ -93,7 +93,7 @@ func (c05) Cases(tier string, seed int64, kf *KnownFindings) []Case {
 	add(Case{Kind: "extra1", Seed: Mix(seed, 3), Count: 6 * len(extraKinds)})
 	add(Case{Kind: "pos", Seed: Mix(seed, 4), Count: 41 * 4 * 2})
 	add(Case{Kind: "bigpos", Seed: Mix(seed, 7), Count: len(c05bigPos) * 4})
-	add(Case{Kind: "skipref", Seed: Mix(seed, 5), Count: 24})
+	add(Case{Kind: "skipref", Seed: Mix(seed, 5), Count: 30})
 	add(Case{Kind: "dupdef", Seed: Mix(seed, 6), Count: 12})
 	n, per := 8, 100
 	if tier == "thorough" {
@@ -107,7 +107,7 @@ func (c05) Cases(tier string, seed int64, kf *KnownFindings) []Case {
 
 var c05bigPos = []int{41, 64, 100, 254, 255, 256, 257, 271, 272, 511, 512, 513, 1023, 1024, 1025}
 
-var extraKinds = []string{"int", "string", "chunked-string", "list", "map", "object", "ref", "null", "double", "binary", "long", "date", "typed-list", "bool", "double2", "double3", "double9", "double1", "long2", "long3", "int5", "utf8-string", "utf8-medium", "long5", "long5neg", "unknown-class-object", "unknown-type-list", "unknown-type-map", "unknown-class-in-list"}
+var extraKinds = []string{"int", "string", "chunked-string", "list", "map", "object", "ref", "null", "double", "binary", "long", "date", "typed-list", "bool", "double2", "double3", "double9", "double1", "long2", "long3", "int5", "utf8-string", "utf8-medium", "long5", "long5neg", "unknown-class-object", "unknown-type-list", "unknown-type-map", "unknown-class-in-list", "nested-skip"}
 
 type c05spec struct {
 	goType   reflect.Type
@@ -264,6 +264,13 @@ func (sp *c05spec) build() (stream []byte, reads int, pickLast bool, expect inte
 		case "unknown-class-object":
 			// the receiver has neither the field nor the class of its value (a newer sender)
 			av = hspec.Object("newer.Added", []string{"x", "y"}, hspec.Int(5), hspec.List("", hspec.String("in")))
+		case "nested-skip":
+			// inside the skipped value: an instance of a KNOWN class that itself carries an unknown field,
+			// and only then values of unknown class / type (the skip is entered twice, one inside the other)
+			known := hspec.Object("test.Inner", []string{"a", "zz", "s"}, hspec.Int(1), hspec.List("", hspec.Int(9)), hspec.String("k"))
+			tm := hspec.Map("newer.Props", hspec.String("k"), hspec.Int(1))
+			tm.MapTyped = true
+			av = hspec.List("", known, hspec.Object("newer.Added", []string{"x"}, hspec.Int(6)), hspec.List("[newer.Added", hspec.Int(1)), tm, known)
 		case "unknown-class-in-list":
 			o := hspec.Object("newer.Added", []string{"x"}, hspec.Int(6))
 			av = hspec.List("", o, hspec.Int(1), o)
@@ -375,6 +382,14 @@ func (sp *c05spec) build() (stream []byte, reads int, pickLast bool, expect inte
 		reads++
 		pickLast = true
 	default: // hoist: unused definitions in front
+		// ... among them one of a class the receiver does not know at all and that is never instantiated,
+		// and the definitions of unknown classes that only occur inside unknown (skipped) fields
+		enc.Define(hspec.Object("newer.NeverUsed", []string{"q", "r"}, hspec.Int(0), hspec.Int(0)))
+		hspec.Walk(targetObj, func(n *hspec.Value) {
+			if n.Kind == hspec.KObject && strings.HasPrefix(n.Type, "newer.") {
+				enc.Define(n)
+			}
+		})
 		for i := 0; i < pre; i++ {
 			enc.Define(mkFiller(i))
 		}
@@ -682,7 +697,10 @@ func c05special(c Case, j int, env *Env, res *Result) {
 		owner := inner(int32(j), "owner")
 		names := []string{"tags", "owner", "editor", "n"}
 		vals := []*hspec.Value{unk, owner, owner, hspec.Int(7)} // the second `owner` is written as a ref
-		switch (j / 6) % 4 {
+		switch (j / 6) % 5 {
+		case 4: // the object's FIRST occurrence lies inside the unknown field; the known fields only refer to it
+			names = []string{"tags", "owner", "editor", "n"}
+			vals = []*hspec.Value{hspec.List("", unk, owner, hspec.Int(1)), owner, owner, hspec.Int(7)}
 		case 1: // unknown container between owner and the reference to it
 			names = []string{"owner", "tags", "editor", "n"}
 			vals = []*hspec.Value{owner, unk, owner, hspec.Int(7)}
